@@ -45,8 +45,11 @@ def async_range(E):
 
 
 def range_stub(E):
-    """async_range(n) through its contract (c06.async_range): n elements 0..n-1"""
-    E.stubs[AR] = lambda E_, f, a, k: M.SymRange(0, a[0])
+    """async_range(n) through its contract (c06.async_range): n elements 0..n-1, with a bare suspension point
+    (asyncio.sleep(0)) before each element - which is what keeps the event loop responsive while a large credit is served"""
+    def each(E_):
+        E_.path.ghost['cooperative_yields'] = E_.path.ghost.get('cooperative_yields', 0) + 1
+    E.stubs[AR] = lambda E_, f, a, k: M.SymRange(0, a[0], on_each=each)
 
 
 def mk_source(E, cls=SFG, started=False):
@@ -79,9 +82,9 @@ def _generate_next_n(cls):
             return v if cls == SFG else aio.Awaitable('ready', result=v)
         log = OpaqueLog(E, returns={'__next__': nxt, '__anext__': nxt})
         E.builtins['next'] = M.Builtin('next', lambda g, *d: nxt(E, g, '__next__', (g,) + tuple(d), {}))
-        E.suspend_hook = lambda E_, what: None
         out = []
         st = {}
+        E.suspend_hook = lambda E_, what: st.__setitem__('susp', st.get('susp', 0) + 1)
 
         def inv(ctx):
             k = I(ctx.k)
@@ -92,10 +95,15 @@ def _generate_next_n(cls):
             new = out[st['n0']:]
             np = produced[st['p0']:]
             return [('at most one element per unit of credit', len(new) <= 1),
+                    ('the producer yields control to the event loop for every element it takes from the generator'
+                     '[a peer granting a huge request-n must not block the connection]',
+                     E.path.ghost.get('cooperative_yields', 0) - st['y0'] + st.get('susp', 0) >= len(np)),
                     ('the yielded element is exactly the one taken from the generator', len(new) == len(np) and all(a is b for a, b in zip(new, np)))]
 
         def havoc(ctx):
             st['n0'], st['p0'] = len(out), len(produced)
+            st['y0'] = E.path.ghost.get('cooperative_yields', 0)
+            st['susp'] = 0
             st['k'] = ctx.k
         spec = LoopSpec(inv, None, havoc=havoc)
         spec.nonterminating = True
@@ -114,9 +122,9 @@ def _generate_next_n(cls):
     return run
 
 
-harness('c06.generate_next_n[generator]', ['C06'], functions=[SFG + '._generate_next_n'],
+harness('c06.generate_next_n[generator]', ['C06', 'C12'], functions=[SFG + '._generate_next_n'],
         assumptions=['async_range used through its contract (c06.async_range)', 'the application generator is abstract'])(_generate_next_n(SFG))
-harness('c06.generate_next_n[async-generator]', ['C06'], functions=[SFA + '._generate_next_n'],
+harness('c06.generate_next_n[async-generator]', ['C06', 'C12'], functions=[SFA + '._generate_next_n'],
         assumptions=['async_range used through its contract (c06.async_range)', 'the application generator is abstract'])(_generate_next_n(SFA))
 
 
